@@ -749,11 +749,16 @@ class Person(object):
             if string[0].islower():
                 return True
             else:
+                previous = None
                 for char, brace_level in scan_bibtex_string(string):
                     if brace_level == 0 and char.isalpha():
                         return char.islower()
-                    elif brace_level == 1 and char.startswith('\\'):
+                    elif (
+                        brace_level == 1 and char.startswith('\\')
+                        and previous == ('{', 1)  # a special character
+                    ):
                         return special_char_islower(char)
+                    previous = char, brace_level
             return False
 
         def special_char_islower(special_char):
